@@ -551,5 +551,28 @@ func C07(c *core.Ctx) {
 			c.Violation("judge-go", "c07-send-altered", fmt.Sprintf("%d goroutines sending through one client: the writes received by the connection are not exactly the encodings of the messages sent (%d bytes on the wire)", workers, len(wire)), nil)
 		}
 	}
+	// (e) the handshake helpers take byte slices from the caller (key, salt, nonce): carved from one backing array with
+	//     spare capacity behind each -- what a caller that slices one buffer hands over -- the whole array comes back unchanged
+	for i := 0; i < c.N(60, 2000); i++ {
+		block := make([]byte, 96)
+		r.Read(block)
+		snap := append([]byte{}, block...)
+		salt, nonce, key := block[0:16], block[16:32+r.Intn(8)], block[48:56]
+		host := fmt.Sprintf("host-%d", r.Intn(1000))
+		ping, err := protocol.NewPing(host, key, salt, nonce)
+		if err == nil {
+			_ = protocol.ValidatePingDigest(ping, key, nonce)
+			if pong, e := protocol.NewPong(true, "", "server-"+host, key, &protocol.Helo{MessageType: "HELO", Options: &protocol.HeloOpts{Nonce: nonce}}, ping); e == nil {
+				_ = protocol.ValidatePongDigest(pong, key, nonce, salt)
+			}
+		}
+		_, _ = protocol.NewPingWithAuth(host, key, salt, nonce, "u", "p")
+		c.Eval()
+		if !bytes.Equal(block, snap) {
+			c.Violation("judge-go", "c07-caller-bytes", "a handshake helper wrote into the caller's memory (salt / nonce / key carved from one array with spare capacity)", map[string]interface{}{"before": hx(snap), "after": hx(block)})
+			break
+		}
+	}
+	c.Hist("handshake helpers leave the caller's bytes alone")
 	_ = client.DefaultConnectionTimeout
 }
